@@ -1,7 +1,7 @@
 (* E2 / C09 — concrete rows: non-vacuity of the Encodes theorems, and the witnesses that show
    where layout DOES matter in the faithful model (refutations of the unrestricted claims). *)
 From Coq Require Import List NArith ZArith Bool Lia Arith String Ascii.
-From RPFT Require Import Base.Sexp Base.PyStr Base.PyStrFacts Base.Result Base.ODict Gen.Tables Cell.Cell
+From RPFT Require Import Base.Sexp Base.PyStr Base.PyStrFacts Base.Result Base.ODict Gen.Tables Cell.Cell Cell.CellFacts
   Row.Ty Row.RowParse Row.FlowRow Row.ParseFold Row.Encodes Row.EncodesFacts Row.FlowHeaderFacts.
 Import ListNotations.
 Local Open Scope N_scope.
@@ -256,4 +256,108 @@ Example padded_type_witness :
   flow_parse flow_padded_short = Err EKey
   /\ is_ok (flow_parse flow_padded_long) = true
   /\ flow_parse flow_padded_long = flow_parse flow_unpadded_short.
+Proof. repeat split; vm_compute; reflexivity. Qed.
+
+(* ---- the positive half: positional = spread whenever the first value is not a field name ---- *)
+Definition no_ws (x : str) : bool := forallb (fun c => negb (is_ws c)) x.
+
+Lemma lstrip_no_ws x : no_ws x = true -> lstrip x = x.
+Proof. destruct x as [|c r]; [reflexivity|]. cbn. intros H. apply andb_prop in H. destruct H as [H _]. destruct (is_ws c); [discriminate|reflexivity]. Qed.
+
+Lemma rstrip_no_ws x : no_ws x = true -> rstrip x = x.
+Proof.
+  induction x as [|c r IH]; [reflexivity|]. cbn [no_ws forallb]. intros H. apply andb_prop in H. destruct H as [Hc Hr].
+  cbn [rstrip]. rewrite (IH Hr). destruct r; [|reflexivity]. destruct (is_ws c); [discriminate|reflexivity].
+Qed.
+
+Lemma strip_no_ws x : no_ws x = true -> strip x = x.
+Proof. intros H. unfold strip. rewrite (lstrip_no_ws x H). apply rstrip_no_ws, H. Qed.
+
+Lemma escape_plain x : forallb (fun c => negb (is_special c)) x = true -> escape x = x.
+Proof.
+  induction x as [|c r IH]; [reflexivity|]. cbn [forallb]. intros H. apply andb_prop in H. destruct H as [Hc Hr].
+  cbn [escape]. destruct (is_special c); [discriminate|]. rewrite (IH Hr). reflexivity.
+Qed.
+
+Lemma plain_parts x : plain x = true ->
+  x <> [] /\ no_ws x = true /\ forallb (fun c => negb (is_special c)) x = true /\ mem_char tmp_char x = false.
+Proof.
+  unfold plain. intros H. apply andb_prop in H. destruct H as [Hne Hall].
+  split; [destruct x; [discriminate|discriminate]|].
+  clear Hne. induction x as [|c r IH]; [repeat split; reflexivity|].
+  cbn [forallb] in Hall. apply andb_prop in Hall. destruct Hall as [Hc Hr].
+  apply andb_prop in Hc. destruct Hc as [Hc H3]. apply andb_prop in Hc. destruct Hc as [H1 H2].
+  destruct (IH Hr) as [I1 [I2 I3]]. cbn [no_ws forallb mem_char]. unfold no_ws in I1. rewrite I1, I2, I3, H1, H2.
+  destruct (c =? tmp_char); [discriminate|]. repeat split; reflexivity.
+Qed.
+
+Lemma cell_parse_pair a b :
+  plain a = true -> plain b = true -> cell_parse (a ++ [sep0] ++ b) = Lst [Str a; Str b].
+Proof.
+  intros Ha Hb. destruct (plain_parts a Ha) as [Ha0 [Ha1 [Ha2 Ha3]]]. destruct (plain_parts b Hb) as [Hb0 [Hb1 [Hb2 Hb3]]].
+  assert (Hw : wfb (Lst [Str a; Str b]) = true).
+  { cbn [wfb is_nil negb last_ok last nonblank forallb elem_ok andb]. unfold str_ok. rewrite Ha3, Hb3.
+    destruct b; [congruence|reflexivity]. }
+  destruct (list_roundtrip _ Hw) as [txt [Hj Hs]].
+  cbn in Hj. rewrite !escape_string_one_pass, (escape_plain a Ha2), (escape_plain b Hb2) in Hj.
+  injection Hj as <-. unfold cell_parse.
+  assert (Hnw : no_ws (a ++ [sep0] ++ b) = true).
+  { unfold no_ws. rewrite !forallb_app. unfold no_ws in Ha1, Hb1. rewrite Ha1, Hb1. cbn [forallb app]. rewrite ws_sep0. reflexivity. }
+  rewrite (strip_no_ws _ Hnw). cbn [app] in *. rewrite Hs. cbn [trim map].
+  rewrite (strip_no_ws a Ha1), (strip_no_ws b Hb1). reflexivity.
+Qed.
+
+Definition fieldsAB : list field := [(s!"a", (TStr, Some (VStr []))); (s!"b", (TStr, Some (VStr [])))].
+
+Lemma encodes_ab_positional a b :
+  plain a = true -> plain b = true -> has_field fieldsAB a = false ->
+  Encodes rmAB (rowAB a b) (ab_positional a b).
+Proof.
+  intros Ha Hb Hnf.
+  apply (Encodes_intro _ _ _ (ab_positional a b)); [reflexivity|reflexivity|].
+  change (cols_of (ab_positional a b)) with [([s!"m"], Raw (a ++ [sep0] ++ b))].
+  apply EncModelSpread; [discriminate|nodup|repeat constructor; vm_compute; discriminate|].
+  apply FieldsCons; [|apply FieldsNil].
+  change (sub_key [] s!"m" [([s!"m"], Raw (a ++ [sep0] ++ b))]) with [(@nil str, Raw (a ++ [sep0] ++ b))].
+  apply EncCell. change (leaf_value tAB (Raw (a ++ [sep0] ++ b))) with (cell_parse (a ++ [sep0] ++ b)).
+  rewrite (cell_parse_pair a b Ha Hb).
+  apply (NvModelArgs fieldsAB [] [] (Lst [Str a; Str b]) [(s!"a", VStr a); (s!"b", VStr b)]).
+  - nodup.
+  - cbn [entries_of as_kwarg remap_get oget]. rewrite Hnf. reflexivity.
+  - cbn [entries_of]. eapply ArgsPos; [reflexivity|reflexivity|apply NvStr|].
+    eapply ArgsPos; [reflexivity|reflexivity|apply NvStr|]. apply ArgsNil.
+  - nodup.
+  - reflexivity.
+Qed.
+
+Lemma encodes_ab_spread a b :
+  plain a = true -> plain b = true -> Encodes rmAB (rowAB a b) (ab_spread a b).
+Proof.
+  intros Ha Hb. destruct (plain_parts a Ha) as [_ [Ha1 _]]. destruct (plain_parts b Hb) as [_ [Hb1 _]].
+  apply (Encodes_intro _ _ _ (ab_spread a b)); [reflexivity|reflexivity|].
+  change (cols_of (ab_spread a b)) with [([s!"m"; s!"a"], Raw a); ([s!"m"; s!"b"], Raw b)].
+  apply EncModelSpread; [discriminate|nodup|repeat constructor; vm_compute; discriminate|].
+  apply FieldsCons; [|apply FieldsNil].
+  change (sub_key [] s!"m" [([s!"m"; s!"a"], Raw a); ([s!"m"; s!"b"], Raw b)]) with [([s!"a"], Raw a); ([s!"b"], Raw b)].
+  apply EncModelSpread; [discriminate|nodup|repeat constructor; vm_compute; discriminate|].
+  apply FieldsCons; [|apply FieldsCons; [|apply FieldsNil]].
+  - change (sub_key [] s!"a" [([s!"a"], Raw a); ([s!"b"], Raw b)]) with [(@nil str, Raw a)].
+    apply EncCell. change (leaf_value TStr (Raw a)) with (Str (strip a)). rewrite (strip_no_ws a Ha1). apply NvStr.
+  - change (sub_key [] s!"b" [([s!"a"], Raw a); ([s!"b"], Raw b)]) with [(@nil str, Raw b)].
+    apply EncCell. change (leaf_value TStr (Raw b)) with (Str (strip b)). rewrite (strip_no_ws b Hb1). apply NvStr.
+Qed.
+
+(* for ALL plain texts a, b: the positional cell and the two spread columns parse alike — provided
+   a is not the name of a field of the record *)
+Theorem positional_is_spread_partial a b :
+  plain a = true -> plain b = true -> has_field fieldsAB a = false ->
+  parse_row rmAB (ab_positional a b) = parse_row rmAB (ab_spread a b).
+Proof.
+  intros Ha Hb Hnf.
+  apply (layout_independent rmAB (rowAB a b)); [apply encodes_ab_positional|apply encodes_ab_spread]; assumption.
+Qed.
+
+Example positional_is_spread_nonvacuous :
+  plain s!"c" = true /\ plain s!"x" = true /\ has_field fieldsAB s!"c" = false
+  /\ parse_row rmAB (ab_positional s!"c" s!"x") = Ok (rowAB s!"c" s!"x").
 Proof. repeat split; vm_compute; reflexivity. Qed.
